@@ -4,6 +4,7 @@ import (
 	"bytes"
 	"fmt"
 	"math"
+	"math/big"
 	"reflect"
 	"time"
 
@@ -346,8 +347,12 @@ func agreeTimeInt(s ref.Schema, d ref.Datum, t time.Time, dir agreeDir, path str
 		return nil
 	}
 	unit := logicalUnit(s)
+	// seconds and nanoseconds of the stored integer, computed without going
+	// through a nanosecond count (which covers only the years 1677-2262)
+	perSec := int64(1e9) / unit
 	if dir == dirRead {
-		want := time.Unix(0, d.I*unit)
+		sec := floorDiv(d.I, perSec)
+		want := time.Unix(sec, (d.I-sec*perSec)*unit)
 		if !t.Equal(want) {
 			return fmt.Errorf("%s: %s %d decoded to %v, expected %v", path, lt(s), d.I, t.UTC(), want.UTC())
 		}
@@ -356,9 +361,14 @@ func agreeTimeInt(s ref.Schema, d ref.Datum, t time.Time, dir agreeDir, path str
 	// "the integer that decodes back to it at that type's resolution": the time
 	// truncated to the unit (time.Time.Truncate, i.e. rounded down, also before
 	// 1970), which is one definite integer
-	ns := t.UnixNano()
-	if want := floorDiv(ns, unit); d.I != want {
-		return fmt.Errorf("%s: time %v (%d ns) written as %s %d, the time at that resolution is %d", path, t.UTC(), ns, lt(s), d.I, want)
+	sec, nsec := t.Unix(), int64(t.Nanosecond())
+	hi := new(big.Int).Mul(big.NewInt(sec), big.NewInt(perSec))
+	hi.Add(hi, big.NewInt(nsec/unit))
+	if !hi.IsInt64() {
+		return fmt.Errorf("VERIF-INCONCLUSIVE harness: time %v is outside the range of %s", t.UTC(), lt(s))
+	}
+	if want := hi.Int64(); d.I != want {
+		return fmt.Errorf("%s: time %v written as %s %d, the time at that resolution is %d", path, t.UTC(), lt(s), d.I, want)
 	}
 	return nil
 }
